@@ -7,6 +7,7 @@ import (
 	"time"
 
 	sdk "github.com/cosmos/cosmos-sdk/types"
+	"github.com/ethereum/go-ethereum/common"
 	tmproto "github.com/tendermint/tendermint/proto/tendermint/types"
 
 	"github.com/teleport-network/teleport/app"
@@ -46,6 +47,11 @@ type ClientSpec struct {
 	Heights [][2]string `json:"heights"`
 	Signers [][2]string `json:"signers,omitempty"` // bsc only
 	Pending bool        `json:"pending,omitempty"` // bsc only: call SetPendingValidators
+	// eth only: [root (32 bytes hex), header hash (32 bytes hex), height]: SetEthConsensusRoot + the header index entry
+	EthEntries [][3]string `json:"eth_entries,omitempty"`
+	// raw metadata keys (hex, relative to the client store) imported through ClientKeeper.SetAllClientMetadata
+	// (the genesis-import path: any non-empty key).  Written last.  Never "clientState", never empty.
+	Raw []string `json:"raw,omitempty"`
 }
 
 type IterSpec struct {
@@ -55,6 +61,7 @@ type IterSpec struct {
 	Receipts    [][3]string  `json:"receipts"`
 	NextSeq     [][3]string  `json:"nextseq"`
 	Relayers    []string     `json:"relayers"`
+	ByPath      [][2]string  `json:"by_path,omitempty"` // (src, dst) pairs for GetAllPacketCommitmentsByPath
 }
 
 type Items3 struct {
@@ -72,6 +79,26 @@ type Items1 struct {
 type KeysObs struct {
 	Class int      `json:"class"`
 	Keys  []string `json:"keys"`
+	Vals  []string `json:"vals"`
+}
+
+// Entry: one metadata write as it reached the client store (key recorded by a recording store wrapper, or the raw key).
+// Tag: 1 processed time, 2 iteration key, 3 recent signer, 4 pending validators, 5 eth header index, 6 eth root main, 7 raw
+type Entry struct {
+	Tag int    `json:"tag"`
+	Key string `json:"key"`
+	Val string `json:"val"`
+}
+
+type MetaObs struct {
+	Name string   `json:"name"`
+	Keys []string `json:"keys"`
+	Vals []string `json:"vals"`
+}
+
+type AllMetaObs struct {
+	Class int       `json:"class"`
+	Items []MetaObs `json:"items"`
 }
 type CountObs struct {
 	Class int `json:"class"`
@@ -87,6 +114,12 @@ type PerClient struct {
 	EvmAsc    Items2   `json:"evm_asc"`
 	EthAsc    Items2   `json:"eth_asc"`
 	Signers   Items2   `json:"signers"`
+	Written   []Entry  `json:"written"`
+	ExpTm     KeysObs  `json:"exp_tm"`  // tendermint ClientState.ExportMetadata on this store
+	ExpBsc    KeysObs  `json:"exp_bsc"` // bsc ClientState.ExportMetadata
+	ExpEth    KeysObs  `json:"exp_eth"` // eth ClientState.ExportMetadata
+	// keys left under the recent-signer prefix after bsc DeleteAllSigner on a branch of the store
+	SignersLeft KeysObs `json:"signers_left"`
 }
 
 type IterObs struct {
@@ -101,6 +134,20 @@ type IterObs struct {
 	Receipts    Items3      `json:"receipts"`
 	NextSeq     Items3      `json:"nextseq"`
 	Relayers    CountObs    `json:"relayers"`
+	AllMeta     AllMetaObs  `json:"all_meta"` // ClientKeeper.GetAllClientMetadata(GetAllGenesisClients)
+	ByPath      []Items3    `json:"by_path"`  // GetAllPacketCommitmentsByPath per requested (src, dst)
+}
+
+// recStore records every Set that reaches the wrapped store.
+type recStore struct {
+	sdk.KVStore
+	tag int
+	log *[]Entry
+}
+
+func (r recStore) Set(key, value []byte) {
+	*r.log = append(*r.log, Entry{Tag: r.tag, Key: hlib.Hex(key), Val: hlib.Hex(value)})
+	r.KVStore.Set(key, value)
 }
 
 // valid client / consensus state values (they only have to marshal and unmarshal)
@@ -207,15 +254,41 @@ func runIter(raw json.RawMessage) interface{} {
 	var s IterSpec
 	decodeSpec(raw, &s)
 	// decode everything first: a malformed spec must not look like a panic of the code under test
+	type ethEntry struct {
+		root, hash common.Hash
+		height     uint64
+	}
 	type cl struct {
 		name, typ string
 		hs, sg    []clienttypes.Height
 		cs        exported.ClientState
 		pending   bool
+		eth       []ethEntry
+		raw       [][]byte
+		written   []Entry
 	}
-	var cls []cl
+	var cls []*cl
 	for _, c := range s.Clients {
-		cls = append(cls, cl{string(unhex(c.Name)), c.Type, heights(c.Heights), heights(c.Signers), clientStateOf(c.Type), c.Pending})
+		x := &cl{name: string(unhex(c.Name)), typ: c.Type, hs: heights(c.Heights), sg: heights(c.Signers), cs: clientStateOf(c.Type), pending: c.Pending}
+		for _, e := range c.EthEntries {
+			r, h := unhex(e[0]), unhex(e[1])
+			if len(r) != 32 || len(h) != 32 {
+				bad("eth entry: root and hash must be 32 bytes")
+			}
+			x.eth = append(x.eth, ethEntry{common.BytesToHash(r), common.BytesToHash(h), parseU(e[2])})
+		}
+		for _, k := range c.Raw {
+			kb := unhex(k)
+			if len(kb) == 0 || string(kb) == host.KeyClientState {
+				bad("raw metadata key must be non-empty and not the client state key")
+			}
+			x.raw = append(x.raw, kb)
+		}
+		cls = append(cls, x)
+	}
+	var byPath [][2]string
+	for _, p := range s.ByPath {
+		byPath = append(byPath, [2]string{string(unhex(p[0])), string(unhex(p[1]))})
 	}
 	comm, acks, recs, nseq := triples(s.Commitments), triples(s.Acks), triples(s.Receipts), triples(s.NextSeq)
 	var rels []string
@@ -246,23 +319,44 @@ func runIter(raw json.RawMessage) interface{} {
 		if store == nil {
 			continue
 		}
+		rec := func(tag int) sdk.KVStore { return recStore{store, tag, &c.written} }
 		for i, h := range c.hs {
 			i, h := i, h
 			do(func() { ck.SetClientConsensusState(ctx, c.name, h, consStateOf(c.typ, i)) })
 			if c.typ == "tm" {
-				do(func() { tmclient.SetProcessedTime(store, h, 1700000000000000000+uint64(i)) })
-				do(func() { tmclient.SetIterationKey(store, h) })
+				do(func() { tmclient.SetProcessedTime(rec(1), h, 1700000000000000000+uint64(i)) })
+				do(func() { tmclient.SetIterationKey(rec(2), h) })
 			}
 		}
 		for i, h := range c.sg {
 			i, h := i, h
 			do(func() {
-				bsctypes.SetSigner(store, bsctypes.Signer{Height: h, Validator: bytes.Repeat([]byte{byte(0x30 + i)}, 20)})
+				bsctypes.SetSigner(rec(3), bsctypes.Signer{Height: h, Validator: bytes.Repeat([]byte{byte(0x30 + i)}, 20)})
 			})
 		}
 		if c.pending {
 			do(func() {
-				bsctypes.SetPendingValidators(store, cdc, [][]byte{bytes.Repeat([]byte{9}, 20), bytes.Repeat([]byte{10}, 20)})
+				bsctypes.SetPendingValidators(rec(4), cdc, [][]byte{bytes.Repeat([]byte{9}, 20), bytes.Repeat([]byte{10}, 20)})
+			})
+		}
+		for i, e := range c.eth {
+			i, e := i, e
+			do(func() {
+				rec(5).Set(ethclient.EthHeaderIndexKey(e.hash, e.height), append([]byte("header-"), byte(0x30+i)))
+			})
+			do(func() { ethclient.SetEthConsensusRoot(rec(6), e.height, e.root, e.hash) })
+		}
+		if len(c.raw) > 0 {
+			// the value of a raw entry is a marshalled consensus state of the client's type, so that an entry whose key
+			// happens to be a well-formed consensus state key does not make the keeper's unmarshalling panic
+			val := ck.MustMarshalConsensusState(consStateOf(c.typ, 99))
+			var mds []clienttypes.GenesisMetadata
+			for _, k := range c.raw {
+				mds = append(mds, clienttypes.NewGenesisMetadata(k, val))
+				c.written = append(c.written, Entry{Tag: 7, Key: hlib.Hex(k), Val: hlib.Hex(val)})
+			}
+			do(func() {
+				ck.SetAllClientMetadata(ctx, []clienttypes.IdentifiedGenesisMetadata{clienttypes.NewIdentifiedGenesisMetadata(c.name, mds)})
 			})
 		}
 	}
@@ -311,21 +405,53 @@ func runIter(raw json.RawMessage) interface{} {
 
 	o.PerClient = []PerClient{}
 	for _, c := range cls {
-		pc := PerClient{Name: hlib.Hex([]byte(c.name)), Type: c.typ, StoreKeys: []string{}}
-		pc.PTime.Keys = []string{}
+		pc := PerClient{Name: hlib.Hex([]byte(c.name)), Type: c.typ, StoreKeys: []string{}, Written: c.written}
+		if pc.Written == nil {
+			pc.Written = []Entry{}
+		}
+		pc.PTime.Keys, pc.PTime.Vals = []string{}, []string{}
+		for _, e := range []*KeysObs{&pc.ExpTm, &pc.ExpBsc, &pc.ExpEth, &pc.SignersLeft} {
+			e.Keys, e.Vals = []string{}, []string{}
+		}
 		pc.TmAsc.Items, pc.EvmAsc.Items, pc.EthAsc.Items, pc.Signers.Items = [][2]string{}, [][2]string{}, [][2]string{}, [][2]string{}
 		var store sdk.KVStore
 		if p, _ := hlib.Catch(func() { store = ck.ClientStore(ctx, c.name) }); p || store == nil {
 			pc.PTime.Class, pc.TmAsc.Class, pc.EvmAsc.Class, pc.EthAsc.Class, pc.Signers.Class = 2, 2, 2, 2, 2
+			pc.ExpTm.Class, pc.ExpBsc.Class, pc.ExpEth.Class, pc.SignersLeft.Class = 2, 2, 2, 2
 			o.PerClient = append(o.PerClient, pc)
 			continue
 		}
 		pc.StoreKeys = allKeys(store)
 		pc.PTime.Class = catchClass(func() {
-			tmclient.IterateProcessedTime(store, func(key, _ []byte) bool {
+			tmclient.IterateProcessedTime(store, func(key, val []byte) bool {
 				pc.PTime.Keys = append(pc.PTime.Keys, hlib.Hex(key))
+				pc.PTime.Vals = append(pc.PTime.Vals, hlib.Hex(val))
 				return false
 			})
+		})
+		export := func(dst *KeysObs, f func(sdk.KVStore) []exported.GenesisMetadata) {
+			dst.Class = catchClass(func() {
+				for _, m := range f(store) {
+					dst.Keys = append(dst.Keys, hlib.Hex(m.GetKey()))
+					dst.Vals = append(dst.Vals, hlib.Hex(m.GetValue()))
+				}
+			})
+		}
+		export(&pc.ExpTm, tmclient.ClientState{}.ExportMetadata)
+		export(&pc.ExpBsc, bsctypes.ClientState{}.ExportMetadata)
+		export(&pc.ExpEth, ethclient.ClientState{}.ExportMetadata)
+		pc.SignersLeft.Class, _ = class(func() error {
+			ctx2, _ := ctx.CacheContext()
+			st2 := ck.ClientStore(ctx2, c.name)
+			if err := bsctypes.DeleteAllSigner(st2); err != nil {
+				return err
+			}
+			it := sdk.KVStorePrefixIterator(st2, []byte(bsctypes.PrefixKeyRecentSingers))
+			defer it.Close()
+			for ; it.Valid(); it.Next() {
+				pc.SignersLeft.Keys = append(pc.SignersLeft.Keys, hlib.Hex(it.Key()))
+			}
+			return nil
 		})
 		asc := func(dst *Items2, iter func(sdk.KVStore, func(exported.Height) bool)) {
 			dst.Class = catchClass(func() {
@@ -369,5 +495,29 @@ func runIter(raw json.RawMessage) interface{} {
 		}
 	})
 	o.Relayers.Class = catchClass(func() { o.Relayers.N = len(ck.GetAllRelayers(ctx)) })
+
+	o.AllMeta.Items = []MetaObs{}
+	o.AllMeta.Class, _ = class(func() error {
+		gms, err := ck.GetAllClientMetadata(ctx, ck.GetAllGenesisClients(ctx))
+		if err != nil {
+			return err
+		}
+		for _, igm := range gms {
+			m := MetaObs{Name: hlib.Hex([]byte(igm.ChainName)), Keys: []string{}, Vals: []string{}}
+			for _, md := range igm.Metadata {
+				m.Keys = append(m.Keys, hlib.Hex(md.Key))
+				m.Vals = append(m.Vals, hlib.Hex(md.Value))
+			}
+			o.AllMeta.Items = append(o.AllMeta.Items, m)
+		}
+		return nil
+	})
+	o.ByPath = []Items3{}
+	for _, p := range byPath {
+		p := p
+		var it Items3
+		states(&it, func(c sdk.Context) []packettypes.PacketState { return pk.GetAllPacketCommitmentsByPath(c, p[0], p[1]) })
+		o.ByPath = append(o.ByPath, it)
+	}
 	return o
 }
